@@ -16,10 +16,38 @@ from . import c03
 READ_NOTES = S.SMMAP + "._read_notes"
 
 
+def _enum_t(st, nm, pos, over):
+    return isinstance(st, ast.For) and isinstance(st.iter, ast.Call) and isinstance(st.iter.func, ast.Name) and st.iter.func.id == "enumerate" and \
+        st.iter.args and unparse(st.iter.args[0]) == over and isinstance(st.target, ast.Tuple) and len(st.target.elts) == 2 and \
+        isinstance(st.target.elts[pos], ast.Name) and st.target.elts[pos].id == nm
+
+
+# roles of the locals of SMMap._read_notes (sa/normal.py: with_roles): the rules below name them by role
+SM_READ_ROLES = (
+    ("measure", lambda n, v, st: _enum_t(st, n, 0, "note_data")),
+    ("measure_str", lambda n, v, st: _enum_t(st, n, 1, "note_data")),
+    ("beat", lambda n, v, st: isinstance(st, ast.For) and isinstance(st.target, ast.Name) and st.target.id == n and
+     isinstance(st.iter, ast.Call) and call_name_(st.iter) == "range" and unparse(st.iter.args[-1]) == "METRONOME"),
+    ("beat_str", lambda n, v, st: isinstance(v, ast.Subscript) and isinstance(v.slice, ast.Slice) and unparse(v.value) == "measure_str"),
+    ("snap", lambda n, v, st: _enum_t(st, n, 0, "beat_str")),
+    ("snap_str", lambda n, v, st: _enum_t(st, n, 1, "beat_str")),
+    ("col", lambda n, v, st: _enum_t(st, n, 0, "snap_str")),
+    ("col_char", lambda n, v, st: _enum_t(st, n, 1, "snap_str")),
+    ("snap_obj", lambda n, v, st: isinstance(v, ast.Call) and call_name_(v) == "Snap" and len(v.args) == 3),
+    ("snap_set", lambda n, v, st: isinstance(v, ast.Call) and call_name_(v) == "set" and not v.args),
+)
+
+
+def _read_notes_fn(ctx):
+    from ..normal import with_roles
+    return with_roles(ctx.M.nfn(READ_NOTES), SM_READ_ROLES)
+
+
+
 def reader_dispatch(ctx):
     """symbol constant name -> ('append', accumulator) | ('tail', [accumulators tried in order])"""
     M = ctx.M
-    fn = M.nfn(READ_NOTES)
+    fn = _read_notes_fn(ctx)
     var = None
     # the character variable: compared against SMConst.* in an if/elif chain
     branches = []
@@ -80,7 +108,7 @@ def slot_assignments(ctx):
     """slot -> (list class, expander name, accumulator name, node) from
     ``self.<slot> = <List>.from_dict(<expander>(<acc>))``."""
     M = ctx.M
-    fn = M.nfn(READ_NOTES)
+    fn = _read_notes_fn(ctx)
     out = {}
     for n in walk_no_nested(fn.node):
         if isinstance(n, ast.Assign) and C.self_attr(n.targets[0]) and isinstance(n.value, ast.Call) and \
@@ -222,7 +250,7 @@ def _reseat_arg(call: ast.Call):
 
 def rule_r4(ctx) -> List[R.Inst]:
     M = ctx.M
-    fn = M.nfn(READ_NOTES)
+    fn = _read_notes_fn(ctx)
     file = M.mods[fn.mod].rel
     insts = []
     tms = {}
@@ -391,7 +419,7 @@ def rule_r7(ctx) -> List[R.Inst]:
     from ..flow import Flow, SeqV, ExprV, show, ctor_kwargs
     M = ctx.M
     rid = "C02.R7"
-    fn = M.nfn(READ_NOTES)
+    fn = _read_notes_fn(ctx)
     file = M.mods[fn.mod].rel
     insts = []
     from ..normal import loopify_return_comp
@@ -466,7 +494,7 @@ def rule_r9(ctx) -> List[R.Inst]:
     from .. import sym
     M = ctx.M
     rid = "C02.R9"
-    fn = M.nfn(READ_NOTES)
+    fn = _read_notes_fn(ctx)
     file = M.mods[fn.mod].rel
     insts = []
     loops = [n for n in ast.walk(fn.node) if isinstance(n, ast.For)]
@@ -586,7 +614,7 @@ def rule_r10(ctx) -> List[R.Inst]:
     silent None) is built from every per-kind buffer that is later expanded"""
     M = ctx.M
     rid = "C02.R10"
-    fn = M.nfn(READ_NOTES)
+    fn = _read_notes_fn(ctx)
     file = M.mods[fn.mod].rel
     # the lookup table: NAME = {k: v for k, v in zip(KEYS, tm.offsets(KEYS))}
     table = keys = None
@@ -701,7 +729,7 @@ def rule_r11(ctx) -> List[R.Inst]:
                                 "truncated, shifted by a measure or unreadable; an inline comment after a row discards the row",
                                 construct="split(';') before comment removal"))
     # (b) rows: stripped, blank ones dropped
-    rn = M.nfn(READ_NOTES)
+    rn = _read_notes_fn(ctx)
     file2 = M.mods[rn.mod].rel
     comps = [n for n in ast.walk(rn.node) if isinstance(n, ast.ListComp) and any(
         isinstance(g.iter, ast.Call) and isinstance(g.iter.func, ast.Attribute) and g.iter.func.attr == "split" and g.iter.args and
